@@ -14,109 +14,6 @@ func c06Word(name string, minLen, maxLen int) string {
 	return w
 }
 
-// append-only merge: the tokens of the user's text are a prefix of the enhanced term list
-func VerifHarness_C06_AppendOnly() {
-	db := c01DB(3)
-	q := c06Word("w1", 2, 4)
-	if verifBool("two") {
-		q = q + " " + c06Word("w2", 2, 3)
-	}
-	terms := normalizeAndTokenize(q)
-	orig := append([]string(nil), terms...)
-	pq, enh := db.enhanceQueryWithNLP(q, terms)
-	verifAssert(pq != nil, "C06: analysis is produced")
-	verifAssert(len(enh) >= len(orig), "C06: enhancement never shortens the term list")
-	if len(enh) >= len(orig) {
-		for k := range orig {
-			verifAssert(enh[k] == orig[k], "C06: the user's terms stay first, in order")
-		}
-	}
-	if len(orig) <= 8 {
-		verifAssert(len(enh) <= 8, "C06: enhancement stops at eight terms")
-	}
-	all := pq.GetEnhancedKeywords()
-	for k := len(orig); k < len(enh); k++ {
-		from := false
-		for _, e := range all {
-			if e == enh[k] {
-				from = true
-			}
-		}
-		verifAssert(from, "C06: every added term comes from the analysis of the query")
-		for l := 0; l < k; l++ {
-			verifAssert(enh[l] != enh[k], "C06: no added term repeats an earlier one")
-		}
-	}
-	verifReach("checked")
-}
-
-// term selection: first four distinct terms survive any cap; output is drawn from the input
-func c06Select(nterms int) {
-	db := c01DB(5) // index vocabulary: aa bb cc dd ee ff gg
-	vocab := []string{"aa", "bb", "cc", "dd", "ee", "ff", "gg", "qq", "xx", "yy", "zz", "ww", "vv"}
-	terms := make([]string, nterms)
-	for i := range terms {
-		if i == 1 || (i == 5 && nterms > 6) {
-			terms[i] = vWord("t", 2)         // symbolic: may coincide with anything
-			_ = db.uIndex.postings[terms[i]] // case split: which indexed word (if any) it equals
-		} else {
-			terms[i] = vocab[(i*5+nterms)%len(vocab)]
-		}
-	}
-	capN := verifInt("cap")
-	in := append([]string(nil), terms...)
-	out := db.selectTopTerms(terms, capN)
-	if capN <= 0 || len(in) <= capN {
-		verifAssert(len(out) == len(in), "C06: term list within the cap is returned unchanged")
-	}
-	// the first four distinct input terms are retained
-	var firstFour []string
-	for _, t := range in {
-		if len(firstFour) == 4 {
-			break
-		}
-		dup := false
-		for _, f := range firstFour {
-			if f == t {
-				dup = true
-			}
-		}
-		if !dup {
-			firstFour = append(firstFour, t)
-		}
-	}
-	seenIn := func(t string, l []string) bool {
-		for _, x := range l {
-			if x == t {
-				return true
-			}
-		}
-		return false
-	}
-	// only the leading (at most four) positions are protected by the property
-	lead := in
-	if len(lead) > 4 {
-		lead = lead[:4]
-	}
-	for _, t := range lead {
-		verifAssert(seenIn(t, out), "C06: each of the first four content words is retained")
-	}
-	for _, t := range out {
-		verifAssert(seenIn(t, in), "C06: selected terms are drawn from the query's terms")
-	}
-	if capN > 0 && len(in) > capN {
-		for a := range out {
-			for b := 0; b < a; b++ {
-				verifAssert(out[a] != out[b], "C06: capped term list has no duplicates")
-			}
-		}
-	}
-	verifReach("checked")
-}
-
-func VerifHarness_C06_Select6()  { c06Select(6) }
-func VerifHarness_C06_Select12() { c06Select(12) }
-
 // candidate superset: everything returned with enhancement off is still returned with it on
 var c06Words3 bool
 
@@ -212,4 +109,46 @@ func VerifHarness_C06_SupersetMany() {
 	}
 	verifReach("checked")
 	verifReach("nonempty")
+}
+
+// query words with an inner separator character (id_rsa, node-modules, a.b ...): the index and the
+// plain path split them the same way; the enhanced path must not lose the match. The separator
+// is any printable ASCII character that is neither a letter nor a digit (solver variable).
+func VerifHarness_C06_SupersetPunct() {
+	mk := func(cmd, desc string) Command {
+		c := Command{Command: cmd, Description: desc}
+		vFill(&c)
+		return c
+	}
+	sep := verifByte("sep")
+	verifAssume(sep > 0x20)
+	verifAssume(sep < 0x7f)
+	verifAssume(!(sep >= 'a' && sep <= 'z'))
+	verifAssume(!(sep >= 'A' && sep <= 'Z'))
+	verifAssume(!(sep >= '0' && sep <= '9'))
+	inDB := []string{"_", "-", ".", "/"}[verifIntRange("dbsep", 0, 3)]
+	db := &Database{Commands: []Command{
+		mk("cat id"+inDB+"rsa", "show key"), mk("ls node"+inDB+"modules", "list modules"), mk("zz", "yy"), mk("rsa", "plain"),
+	}}
+	db.BuildUniversalIndex()
+	db.buildTFIDFSearcher()
+	q := "id" + string([]byte{sep}) + "rsa"
+	if verifBool("lead") {
+		q = "show " + q
+	}
+	off := db.SearchUniversal(q, SearchOptions{Limit: 10, AllPlatforms: true})
+	on := db.SearchUniversal(q, SearchOptions{Limit: 10, AllPlatforms: true, UseNLP: true})
+	for _, a := range off {
+		found := false
+		for _, b := range on {
+			if a.Command == b.Command {
+				found = true
+			}
+		}
+		verifAssert(found, "C06: a command returned with enhancement off is still a candidate with it on")
+	}
+	verifReach("checked")
+	if len(off) > 0 {
+		verifReach("nonempty")
+	}
 }
